@@ -227,6 +227,19 @@ namespace vf
             fflush(f_);
             ++stats_["cases"];
         }
+        // names the subject of the running case (e.g. the planner) so that a crash / hang can be keyed by it
+        void subject(const std::string &s)
+        {
+            fprintf(f_, "{\"t\":\"subject\",\"case\":%ld,\"s\":\"%s\"}\n", cur_, jesc(s).c_str());
+            fflush(f_);
+        }
+        // forwards a record produced by a child process verbatim (its 'done' record is summed by the driver like any other)
+        void rawLine(const std::string &l)
+        {
+            fputs(l.c_str(), f_);
+            if (l.empty() || l.back() != '\n') fputc('\n', f_);
+            fflush(f_);
+        }
         long cur() const { return cur_; }
         // whether the driver asked for this case (sharding of a global case index is done by the caller)
         bool wanted(long c) const
